@@ -10,6 +10,7 @@ import (
 	"os/exec"
 	"path/filepath"
 	"reflect"
+	"runtime/metrics"
 	"strings"
 	"time"
 
@@ -60,10 +61,42 @@ func lenClass(n int) string {
 	return "1024+"
 }
 
+var (
+	allocSample = []metrics.Sample{{Name: "/gc/heap/allocs:bytes"}}
+	maxAlloc    uint64
+	maxAllocAt  string
+)
+
+func allocated() uint64 {
+	metrics.Read(allocSample)
+	return allocSample[0].Value.Uint64()
+}
+
+// allocBudget is what one top-level decoding call may allocate: a small multiple of the input plus a constant.
+func allocBudget(n int) uint64 { return 4<<20 + 64*uint64(n) }
+
 // call drives one entry point on one input under the monitor.
 func call(entry string, input []byte, readOnly bool, f func()) (ok bool) {
 	c := ctx
 	c.PersistInput(entry, input)
+	measure := measuredEntry(entry)
+	var a0 uint64
+	if measure {
+		a0 = allocated()
+	}
+	defer func() {
+		if !measure {
+			return
+		}
+		d := allocated() - a0
+		if d > maxAlloc {
+			maxAlloc, maxAllocAt = d, fmt.Sprintf("%s on %d bytes", entry, len(input))
+		}
+		if d > allocBudget(len(input)) {
+			c.Fail("memory: "+entry, fmt.Sprintf("%s allocated %d bytes for a %d-byte input (budget: 4 MiB + 64 bytes per input byte; the allocation counter is process-wide and flushed lazily, hence the generous constant)", entry, d, len(input)),
+				wit{Entry: entry, Input: mon.Hex(input), Mutator: curMut, Detail: fmt.Sprintf("%d bytes allocated", d)})
+		}
+	}()
 	var snap []byte
 	if readOnly {
 		snap = append([]byte{}, input...)
@@ -93,6 +126,28 @@ func call(entry string, input []byte, readOnly bool, f func()) (ok bool) {
 	}()
 	f()
 	return true
+}
+
+// decodeThen runs a decoding entry point on b (measured, read-only), then queries / prints / re-encodes
+// whatever it returned, and checks the caller's buffer once more afterwards.
+func decodeThen(entry string, b []byte, decode func() interface{}, object string, extra func(v interface{})) {
+	var v interface{}
+	if !call(entry, b, true, func() { v = decode() }) || v == nil {
+		return
+	}
+	if rv := reflect.ValueOf(v); (rv.Kind() == reflect.Ptr || rv.Kind() == reflect.Interface) && rv.IsNil() {
+		return
+	}
+	snap := append([]byte{}, b...)
+	callAll(object, b, v, 0)
+	if extra != nil {
+		extra(v)
+	}
+	if !bytes.Equal(snap, b) {
+		ctx.Fail("input-modified: "+entry+" (querying the result)", fmt.Sprintf("querying / printing / re-encoding the object returned by %s modified the caller's %d-byte buffer (first difference at byte %d)", entry, len(b), ref.FirstDiff(snap, b)),
+			wit{Entry: entry, Input: mon.Hex(snap), Mutator: curMut})
+		copy(b, snap)
+	}
 }
 
 var errType = reflect.TypeOf((*error)(nil)).Elem()
@@ -359,12 +414,12 @@ func mutate(r *gen.Rand, b []byte, other []byte) ([]byte, string) {
 // ------------------------------------------------------------------ entry points per format
 
 func driveSCTE35(b []byte) {
-	call("scte35.NewSCTE35", b, true, func() {
-		x, err := scte35.NewSCTE35(b)
-		if err == nil && x != nil {
-			callAll("SCTE35", b, x, 0)
+	decodeThen("scte35.NewSCTE35", b, func() interface{} {
+		if x, err := scte35.NewSCTE35(b); err == nil && x != nil {
+			return x
 		}
-	})
+		return nil
+	}, "SCTE35", nil)
 	call("scte35.SCTE35AccumulatorDoneFunc", b, true, func() { scte35.SCTE35AccumulatorDoneFunc(b) })
 }
 
@@ -380,47 +435,51 @@ func drivePSI(b []byte) {
 }
 
 func drivePMT(b []byte) {
-	call("psi.NewPMT", b, true, func() {
-		x, err := psi.NewPMT(b)
-		if err == nil && x != nil {
-			callAll("PMT", b, x, 0)
-			call("PMT.RemoveElementaryStreams", b, false, func() { x.RemoveElementaryStreams(append([]int{1, 2}, x.Pids()...)) })
+	decodeThen("psi.NewPMT", b, func() interface{} {
+		if x, err := psi.NewPMT(b); err == nil && x != nil {
+			return x
 		}
+		return nil
+	}, "PMT", func(v interface{}) {
+		x := v.(psi.PMT)
+		call("PMT.RemoveElementaryStreams", b, false, func() { x.RemoveElementaryStreams(append([]int{1, 2}, x.Pids()...)) })
 	})
 	drivePSI(b)
 }
 
 func drivePAT(b []byte) {
-	call("psi.NewPAT", b, true, func() {
-		x, err := psi.NewPAT(b)
-		if err == nil && x != nil {
-			callAll("PAT", b, x, 0)
-			var pk packet.Packet
-			call("psi.IsPMT", b, false, func() { psi.IsPMT(&pk, x) })
+	decodeThen("psi.NewPAT", b, func() interface{} {
+		if x, err := psi.NewPAT(b); err == nil && x != nil {
+			return x
 		}
+		return nil
+	}, "PAT", func(v interface{}) {
+		var pk packet.Packet
+		call("psi.IsPMT", b, false, func() { psi.IsPMT(&pk, v.(psi.PAT)) })
 	})
 	drivePSI(b)
 }
 
 func drivePES(b []byte) {
-	call("pes.NewPESHeader", b, true, func() {
-		x, err := pes.NewPESHeader(b)
-		if err == nil && x != nil {
-			callAll("PESHeader", b, x, 0)
-			if f, ok := x.(interface{ Format() string }); ok {
-				call("PESHeader.Format", b, false, func() { _ = f.Format() })
-			}
+	decodeThen("pes.NewPESHeader", b, func() interface{} {
+		if x, err := pes.NewPESHeader(b); err == nil && x != nil {
+			return x
+		}
+		return nil
+	}, "PESHeader", func(v interface{}) {
+		if f, ok := v.(interface{ Format() string }); ok {
+			call("PESHeader.Format", b, false, func() { _ = f.Format() })
 		}
 	})
 }
 
 func driveEBP(b []byte) {
-	call("ebp.ReadEncoderBoundaryPoint", b, true, func() {
-		x, err := ebp.ReadEncoderBoundaryPoint(b)
-		if err == nil && x != nil {
-			callAll("EBP", b, x, 0)
+	decodeThen("ebp.ReadEncoderBoundaryPoint", b, func() interface{} {
+		if x, err := ebp.ReadEncoderBoundaryPoint(b); err == nil && x != nil {
+			return x
 		}
-	})
+		return nil
+	}, "EBP", nil)
 }
 
 func driveDescriptor(tag byte, body []byte) {
@@ -573,11 +632,12 @@ func driveStream(b []byte, pid int) {
 			x.ProgramMap()
 		}
 	})
-	call("psi.ReadPMT", b, true, func() {
+	decodeThen("psi.ReadPMT", b, func() interface{} {
 		if x, err := psi.ReadPMT(bytes.NewReader(b), pid); err == nil && x != nil {
-			callAll("ReadPMT.PMT", b, x, 1)
+			return x
 		}
-	})
+		return nil
+	}, "ReadPMT.PMT", nil)
 	call("sync+ReadPAT+ReadPMT", b, true, func() {
 		br := bufio.NewReader(bytes.NewReader(b))
 		if _, err := packet.Sync(br); err != nil {
@@ -927,6 +987,7 @@ func run(c *mon.Ctx) {
 		curMut = "cli"
 		driveCLI(c, i, b)
 	})
+	noteMaxAlloc(c)
 }
 
 func min(a, b int) int {
@@ -934,4 +995,19 @@ func min(a, b int) int {
 		return a
 	}
 	return b
+}
+
+// measuredEntry: allocation is budgeted for the decoding / accessor entry points themselves, not for
+// printing (String / Format / %v build large strings by design) or for the getters of decoded objects.
+func measuredEntry(entry string) bool {
+	for _, p := range []string{"scte35.", "psi.", "pes.", "ebp.", "packet.", "adaptationfield.", "(*Packet).", "(*AdaptationField).", "sync+"} {
+		if strings.HasPrefix(entry, p) {
+			return true
+		}
+	}
+	return false
+}
+
+func noteMaxAlloc(c *mon.Ctx) {
+	c.Note("largest_allocation_by_one_call", fmt.Sprintf("%d bytes (%s)", maxAlloc, maxAllocAt))
 }
